@@ -112,6 +112,27 @@ def continuation(r, cfgname, peer_hold, stats):
     if not mine or mine[0][3].hex() != want:
         m.report('open-changed', 'from %s: the recovered session offers OPEN %s, a fresh agent offers %s'
                  % (state0, mine[0][3].hex() if mine else None, want), feats)
+        return
+    # one more fault on the recovered session (ended by the peer, or by the agent itself after a bad marker - in deferred-close
+    # mode that close completes only after the next connection is up), then the session after it is held to the same standard
+    how = ('peer-close', 'bad-marker', 'peer-reset')[stats['continued'] % 3]
+    if how == 'bad-marker':
+        w.deliver(S.MSGS['BADMARK'][0], tr)
+    else:
+        w.peer_close(tr, clean=(how == 'peer-close'))
+    res3 = S.cooperate(w, bound + 25.0, hold=peer_hold)
+    stats['second_faults'] += 1
+    stats['late_closes'] += res3['late_closes'] + res['late_closes']
+    if res3['first_up'] is None or w.state_direct() != 'ESTABLISHED':
+        m.report('no-second-recovery', 'from %s: recovered once, but after %s no session within %s s (state %s, %d connects)'
+                 % (state0, how, bound + 25.0, w.state_direct(), res3['connects']), feats + ['second-fault:' + how])
+        return
+    tr3 = w.tracked_transport()
+    mine3 = [f for f in wire.frames_of_writes(tr3.written) if f[1] == 1]
+    stats['opens_compared'] += 1
+    if not mine3 or mine3[0][3].hex() != want:
+        m.report('open-changed', 'from %s: the session after the recovered one (ended by %s) offers OPEN %s, a fresh agent offers %s'
+                 % (state0, how, mine3[0][3].hex() if mine3 else None, want), feats + ['second-fault:' + how])
 
 
 def plan(tier, seed):
@@ -121,21 +142,28 @@ def plan(tier, seed):
         for p in range(PARTS[tier]):
             shards.append(dict(kind='bfs', cfg=name, part=p, nparts=PARTS[tier], d0=d0, depth=d, budget=BUDGET[tier],
                                peer_hold=PEER_HOLDS[p % len(PEER_HOLDS)] if name != 'default' else 90))
+        # the same search with close completion as a separate, late event (connectionLost after the write buffer drained)
+        for p in range(2):
+            shards.append(dict(kind='bfs', cfg=name, part=p, nparts=2, d0=d0, depth=d, budget=BUDGET[tier], peer_hold=90, defer=True))
     for i, (name, pre) in enumerate(PREFIXES):
         shards.append(dict(kind='bfs', cfg=name, part=0, nparts=1, d0=1, depth=PREFIX_DEPTH[tier], budget=BUDGET[tier],
                            peer_hold=PEER_HOLDS[i % len(PEER_HOLDS)], start=[pre]))
+        shards.append(dict(kind='bfs', cfg=name, part=0, nparts=1, d0=1, depth=PREFIX_DEPTH[tier], budget=BUDGET[tier],
+                           peer_hold=90, start=[pre], defer=True))
     n, length = WALKS[tier]
     nshard = 4 if tier == 'quick' else 16
     for i in range(nshard):
         shards.append(dict(kind='walk', seed=seed * 1000 + i, n=n // nshard, length=length, cfg=list(CFGS)[i % 3],
-                           peer_hold=PEER_HOLDS[i % len(PEER_HOLDS)]))
+                           peer_hold=PEER_HOLDS[i % len(PEER_HOLDS)], defer=bool(i % 2)))
     return shards
 
 
 def run_shard(sh):
     res = dict(evaluations=0, counters={}, maxima={}, sets={}, distinct=[], samples=[], violations=[])
     cfg = dict(time_opts=CFGS[sh['cfg']])
-    stats = dict(continued=0, stable=0, opens_compared=0, max_recovery=0.0, by_state={}, by_fault={})
+    if sh.get('defer'):
+        cfg['defer_close'] = True
+    stats = dict(continued=0, stable=0, opens_compared=0, max_recovery=0.0, by_state={}, by_fault={}, second_faults=0, late_closes=0)
     viol = {}
     fresh_open(sh['cfg'], sh['peer_hold'])
 
@@ -173,7 +201,9 @@ def run_shard(sh):
             if i == 0:
                 res['samples'].append(dict(cfg=sh['cfg'], walk_len=len(r.seq), walk_head=r.seq[:30], peer_hold=sh['peer_hold']))
         res['counters'] = dict(walks=sh['n'])
-    res['counters'].update(prefixes_continued=stats['continued'], sessions_stable=stats['stable'], opens_compared=stats['opens_compared'])
+    res['counters'].update(prefixes_continued=stats['continued'], sessions_stable=stats['stable'], opens_compared=stats['opens_compared'],
+                           second_faults_recovered_from=stats['second_faults'], late_close_completions=stats['late_closes'])
+    res['sets']['close_completion'] = ['late (separate event)' if sh.get('defer') else 'same instant']
     for k, v in stats['by_state'].items():
         res['counters']['continued_from_%s' % k] = v
     for k, v in stats['by_fault'].items():
@@ -200,7 +230,7 @@ def floors(m, tier):
 def replay(rep):
     r = S.run_seq(rep['cfg'], rep['events'], [OpMonitor])
     cfgname = [k for k, v in CFGS.items() if v == rep['cfg'].get('time_opts')]
-    stats = dict(continued=0, stable=0, opens_compared=0, max_recovery=0.0, by_state={}, by_fault={})
+    stats = dict(continued=0, stable=0, opens_compared=0, max_recovery=0.0, by_state={}, by_fault={}, second_faults=0, late_closes=0)
     out = []
     for ph in PEER_HOLDS:
         r = S.run_seq(rep['cfg'], rep['events'], [OpMonitor])
